@@ -27,7 +27,7 @@ type c01Drop struct{ v any }
 
 func (d c01Drop) ToLiquid() any { return d.v }
 
-const c01Receivers = 28
+const c01Receivers = 29
 
 // c01Receiver returns the k-th receiver of the boundary universe (concrete: many filters
 // print their receiver, and printing is native).
@@ -90,6 +90,8 @@ func c01Receiver(k int) any {
 		}{nil, []any{nil, (*string)(nil)}}}
 	case 26:
 		return []byte("a\xffb")
+	case 28:
+		return c01Key("2020-01-02 10:00") // a named string type (date parses strings)
 	case 27:
 		// maps keyed by a named string type
 		return []any{map[c01Key]any{"k": "b"}, map[c01Key]any{"k": "A", "j": nil}, map[c01Key]any{}}
